@@ -365,7 +365,15 @@ func envPickler(x starlark.Value) (module, name string, args starlark.Tuple, err
 		return "dawn", "Builtin", args, nil
 	case *starlark.FunctionCode:
 		module, globals := x.ModuleEnv()
-		return "dawn", "FunctionCode", starlark.Tuple{module, globals, starlark.Bytes(x.Bytecode())}, nil
+		// The parameter list is part of the code: def h(a) and def h(*a) compile to the same
+		// bytecode.
+		params := make(starlark.Tuple, 0, x.NumParams()+3)
+		for i := 0; i < x.NumParams(); i++ {
+			name, _ := x.Param(i)
+			params = append(params, starlark.String(name))
+		}
+		params = append(params, starlark.MakeInt(x.NumKwonlyParams()), starlark.Bool(x.HasVarargs()), starlark.Bool(x.HasKwargs()))
+		return "dawn", "FunctionCode", starlark.Tuple{module, globals, starlark.Tuple{starlark.Bytes(x.Bytecode()), params}}, nil
 	case *starlark.Function:
 		defaults, freevars := x.Env()
 		return "dawn", "Function", starlark.Tuple{envPairs(defaults), envPairs(freevars), x.Code()}, nil
